@@ -80,4 +80,195 @@ theorem inv_setPc_plain {s : St} (h : Inv s) (p : PId) (hp : p < s.np) (pc' : PP
         · simp [hip]; exact c
     · exact g.acc_nodup
 
+/-- transfer of the global facts across a step that creates no queue and no producer and leaves
+the pool alone -/
+theorem GInv.frame {s s' : St} (g : GInv s)
+    (hnq : s'.nq = s.nq) (hnp : s'.np = s.np) (hnch : s.nch ≤ s'.nch) (hpool : s'.pool = s.pool)
+    (hmap : ∀ k q, s'.map k = some q → s.map k = some q)
+    (hkey : ∀ q, (s'.qs q).key = (s.qs q).key) (hch : ∀ q, (s'.qs q).ch = (s.qs q).ch)
+    (hex : ∀ q, (s'.qs q).cpc ≠ .exited → (s.qs q).cpc ≠ .exited)
+    (hchans : ∀ c, c ∈ s.pool → s'.chans c = s.chans c)
+    (hheld : ∀ p p', p < s'.np → p' < s'.np → ∀ c, PcC (s'.prods p).pc c → PcC (s'.prods p').pc c → p = p')
+    (hadd : ∀ p p', p < s'.np → p' < s'.np → ∀ q, (s'.prods p).pc = .addRef q →
+      (s'.prods p').pc = .addRef q → p = p')
+    (hmain : ∀ k, s'.done k ++ pending s' k = s'.accepted k)
+    (hacc : ∀ k t, t ∈ s'.accepted k → t < s'.np ∧ (s'.prods t).key = k ∧ Enqueued (s'.prods t).pc)
+    (hnd : ∀ k, (s'.accepted k).Nodup) : GInv s' := by
+  constructor
+  · intro k q hm
+    obtain ⟨a, b⟩ := g.map_lt k q (hmap k q hm)
+    exact ⟨by rw [hnq]; exact a, by rw [hkey]; exact b⟩
+  · intro c hc; rw [hpool] at hc; exact Nat.lt_of_lt_of_le (g.pool_lt c hc) hnch
+  · rw [hpool]; exact g.pool_nodup
+  · intro c hc; rw [hpool] at hc; rw [hchans c hc]; exact g.pool_empty c hc
+  · intro q1 q2 h1 h2 hne e1 e2
+    rw [hch, hch]
+    exact g.ch_inj q1 q2 (by omega) (by omega) hne (hex q1 e1) (hex q2 e2)
+  · exact hheld
+  · exact hadd
+  · exact hmain
+  · exact hacc
+  · exact hnd
+
+theorem held_uniq_of {s s' : St} (g : GInv s) (hnp : s'.np = s.np)
+    (hC : ∀ i c, i < s.np → PcC (s'.prods i).pc c → PcC (s.prods i).pc c) :
+    ∀ p p', p < s'.np → p' < s'.np → ∀ c, PcC (s'.prods p).pc c → PcC (s'.prods p').pc c → p = p' := by
+  intro i i' hi hi' c hc hc'
+  rw [hnp] at hi hi'
+  exact g.held_uniq i i' hi hi' c (hC i c hi hc) (hC i' c hi' hc')
+
+theorem addref_uniq_of {s s' : St} (g : GInv s) (hnp : s'.np = s.np)
+    (hA : ∀ i q, i < s.np → (s'.prods i).pc = .addRef q → (s.prods i).pc = .addRef q) :
+    ∀ p p', p < s'.np → p' < s'.np → ∀ q, (s'.prods p).pc = .addRef q →
+      (s'.prods p').pc = .addRef q → p = p' := by
+  intro i i' hi hi' q hq hq'
+  rw [hnp] at hi hi'
+  exact g.addref_uniq i i' hi hi' q (hA i q hi hq) (hA i' q hi' hq')
+
+/-- `main` when logs and pending lists are unchanged -/
+theorem main_frame {s s' : St} (g : GInv s) (ha : s'.accepted = s.accepted) (hd : s'.done = s.done)
+    (hp : ∀ k, pending s' k = pending s k) : ∀ k, s'.done k ++ pending s' k = s'.accepted k := by
+  intro k; rw [ha, hd, hp k]; exact g.main k
+
+/-- the pc of producer `p` after `setPc` on any state -/
+theorem setPc_pc_self (s : St) (p : PId) (pc : PPC) : ((setPc s p pc).prods p).pc = pc := by simp
+
+theorem setPc_pc_other (s : St) (p i : PId) (pc : PPC) (h : i ≠ p) :
+    (setPc s p pc).prods i = s.prods i := by simp [h]
+
+/-- `acc` when `accepted` is unchanged -/
+theorem acc_frame {s s' : St} (g : GInv s) (ha : s'.accepted = s.accepted) (hnp : s.np ≤ s'.np)
+    (hk : ∀ t, t < s.np → (s'.prods t).key = (s.prods t).key)
+    (hE : ∀ t, t < s.np → Enqueued (s.prods t).pc → Enqueued (s'.prods t).pc) :
+    ∀ k t, t ∈ s'.accepted k → t < s'.np ∧ (s'.prods t).key = k ∧ Enqueued (s'.prods t).pc := by
+  intro k t ht
+  rw [ha] at ht
+  obtain ⟨a, b, c⟩ := g.acc k t ht
+  exact ⟨Nat.lt_of_lt_of_le a hnp, by rw [hk t a]; exact b, hE t a c⟩
+
+/-- CAS success in `acquireQueue`: refs r → r+1, the producer now holds a reference -/
+theorem inv_cas {s : St} (h : Inv s) (p : PId) (hp : p < s.np) (q : QId) (r : Int)
+    (hpc : (s.prods p).pc = .fastCas q r ∨ (s.prods p).pc = .slowCas q r)
+    (hr : (s.qs q).refs = r) :
+    Inv (setPc (setRefs s q (r + 1)) p (.enq q)) := by
+  have hPq := (h.p p hp).pc_q q (by cases hpc <;> simp_all [PcQ])
+  have hr0 : 0 ≤ r := (h.p p hp).cas_nonneg q r hpc
+  have hnotenq : ∀ q', (s.prods p).pc ≠ .enq q' := by intro q'; cases hpc <;> simp_all
+  have hnotC : ∀ c, ¬ PcC (s.prods p).pc c := by intro c; cases hpc <;> simp_all [PcC]
+  have hnotE : ¬ Enqueued (s.prods p).pc := by cases hpc <;> simp_all [Enqueued]
+  have hhold : ∀ q', holders (setPc (setRefs s q (r + 1)) p (.enq q)) q' = holders s q' + (if q' = q then 1 else 0) := by
+    intro q'
+    have := holders_upd s (setPc (setRefs s q (r + 1)) p (.enq q)) p q' hp rfl (by intro i hi; simp [setRefs, hi])
+    simp only [hnotenq q', if_false, Nat.add_zero, setPc_prods, if_true, PPC.enq.injEq] at this
+    rw [this]
+    by_cases hqq : q' = q
+    · subst hqq; simp
+    · have : ¬ q = q' := fun h => hqq h.symm
+      simp [this, hqq]
+  have hQ := h.q q hPq.1
+  refine ⟨?_, ?_, ?_⟩
+  · intro q' hq'
+    by_cases hqq : q' = q
+    · subst hqq
+      have hnc : ¬ Claimed (s.qs q').cpc := fun hc => by have := hQ.phase.mpr hc; omega
+      constructor
+      · simp [setRefs]; exact hQ.ch_lt
+      · simp [setRefs]; constructor
+        · intro hlt; omega
+        · intro hc; exact absurd hc hnc
+      · simp [setRefs]; intro _; exact hQ.live_map (by omega)
+      · simp [setRefs]; exact hQ.gone
+      · simp [setRefs]; exact hQ.no_restore
+      · simp [setRefs]; exact hQ.ch_pool
+      · intro _
+        rw [hhold q']
+        have := hQ.refs_ge (by omega)
+        simp [setRefs] at this ⊢
+        omega
+      · simp [setRefs]; intro hlt; omega
+      · simp [setRefs]; intro hlt; omega
+      · simp [setRefs]; exact hQ.mode
+    · apply (h.q q' hq').frame
+      · simp [setRefs, hqq]
+      · exact Nat.le_refl _
+      · exact Iff.rfl
+      · exact fun _ x => x
+      · rw [hhold q']; simp [hqq]
+      · intro _; rfl
+  · intro i hi
+    by_cases hip : i = p
+    · subst hip
+      constructor
+      · intro q' hq'; simp [PcQ] at hq'; subst hq'; simp [setRefs]; exact hPq
+      · intro c hc; simp [PcC] at hc
+      · intro q' hq'; simp at hq'
+      · intro q' r' hc; simp at hc
+    · apply PInv.frame (h.p i hi)
+      · simp [hip, setRefs]
+      · exact Nat.le_refl _
+      · intro q' _; simp only [setPc_qs, setRefs, setQ_qs]; by_cases hqq : q' = q
+        · subst hqq; simp
+        · simp [hqq]
+      · exact Nat.le_refl _
+      · intro c _ hin; exact hin
+      · intro c _; rfl
+      · intro c _ q' hq' he heq
+        simp only [setPc_qs, setRefs, setQ_qs] at he heq
+        by_cases hqq : q' = q
+        · subst hqq; simp at he heq; exact ⟨hq', he, heq⟩
+        · simp [hqq] at he heq; exact ⟨hq', he, heq⟩
+      · intro q' _; simp only [setPc_qs, setRefs, setQ_qs]; by_cases hqq : q' = q
+        · subst hqq; simp
+        · simp [hqq]
+  · have g := h.g
+    have hkey : ∀ q', ((setPc (setRefs s q (r + 1)) p (.enq q)).qs q').key = (s.qs q').key := by
+      intro q'; simp only [setPc_qs, setRefs, setQ_qs]; by_cases hqq : q' = q
+      · subst hqq; simp
+      · simp [hqq]
+    have hcpc : ∀ q', ((setPc (setRefs s q (r + 1)) p (.enq q)).qs q').cpc = (s.qs q').cpc := by
+      intro q'; simp only [setPc_qs, setRefs, setQ_qs]; by_cases hqq : q' = q
+      · subst hqq; simp
+      · simp [hqq]
+    have hch : ∀ q', ((setPc (setRefs s q (r + 1)) p (.enq q)).qs q').ch = (s.qs q').ch := by
+      intro q'; simp only [setPc_qs, setRefs, setQ_qs]; by_cases hqq : q' = q
+      · subst hqq; simp
+      · simp [hqq]
+    constructor
+    · intro k q' hm; rw [hkey]; exact g.map_lt k q' hm
+    · exact g.pool_lt
+    · exact g.pool_nodup
+    · exact g.pool_empty
+    · intro q1 q2 h1 h2 hne e1 e2; rw [hcpc] at e1 e2; rw [hch, hch]; exact g.ch_inj q1 q2 h1 h2 hne e1 e2
+    · intro i i' hi hi' c hc hc'
+      simp only [setPc_prods] at hc hc'
+      by_cases hip : i = p
+      · subst hip; simp [PcC] at hc
+      · by_cases hip' : i' = p
+        · subst hip'; simp [PcC] at hc'
+        · simp [hip] at hc; simp [hip'] at hc'; exact g.held_uniq i i' hi hi' c hc hc'
+    · intro i i' hi hi' q' hq hq'
+      simp only [setPc_prods] at hq hq'
+      by_cases hip : i = p
+      · subst hip; simp at hq
+      · by_cases hip' : i' = p
+        · subst hip'; simp at hq'
+        · simp [hip] at hq; simp [hip'] at hq'; exact g.addref_uniq i i' hi hi' q' hq hq'
+    · intro k
+      have : pending (setPc (setRefs s q (r + 1)) p (.enq q)) k = pending s k := by
+        unfold pending
+        simp only [setPc_map, setPc_qs, setPc_chans, setRefs, setQ_map, setQ_chans]
+        cases s.map k with
+        | none => rfl
+        | some q' =>
+          simp only [setQ_qs]
+          by_cases hqq : q' = q
+          · subst hqq; simp [cur]
+          · simp [hqq]
+      rw [this]; exact g.main k
+    · intro k t ht
+      obtain ⟨a, b, c⟩ := g.acc k t ht
+      have htp : t ≠ p := by intro e; subst e; exact hnotE c
+      refine ⟨a, ?_, ?_⟩ <;> simp [htp] <;> assumption
+    · exact g.acc_nodup
+
 end DaeVerif.C13.TQ
